@@ -82,10 +82,15 @@ def ser_det(d):
             "neg": bool(d.negated), "ap": sorted(d.applied_processing_items)}
 
 
-def ser_rule(rule):
+def ser_rule(rule, pipeline=None):
+    ls = rule.logsource
     return {"dets": [[n, ser_det(d)] for n, d in rule.detection.detections.items()],
             "cond": rule.detection.parsed_condition[0].condition,
-            "fields": list(rule.fields)}
+            "fields": list(rule.fields),
+            "attrs": {"logsource": {"category": ls.category, "product": ls.product, "service": ls.service},
+                      "custom": {k: spec.pj(v) for k, v in rule.custom_attributes.items()},
+                      "state": {k: spec.pj(v) for k, v in (pipeline.state.items() if pipeline is not None else [])},
+                      "applied": sorted(rule.applied_processing_items)}}
 
 
 def convert(rule, pipeline):
@@ -112,7 +117,7 @@ def run_tr(case):
     pipeline = ProcessingPipeline.from_dict(spec.denull(case["pipeline"]))
     try:
         pipeline.apply(rule)
-        out["rout"] = ser_rule(rule)
+        out["rout"] = ser_rule(rule, pipeline)
     except Exception as e:  # noqa
         from sigma.exceptions import SigmaError
         out["apply_exc"] = {"exc": type(e).__name__, "sigma": isinstance(e, SigmaError), "msg": str(e)[:160]}
